@@ -158,8 +158,10 @@ class SCPConnection(object):
         self.sock.setblocking(False)
 
         # Calculate the receive length, this should be the smallest power of
-        # two greater than the required size
-        max_length = buffer_size + consts.SDP_HEADER_LENGTH
+        # two greater than the largest datagram a reply can be: two bytes of
+        # padding, the SDP header, the SCP header (cmd_rc, seq and up to three
+        # arguments) and `buffer_size` bytes of data
+        max_length = 2 + consts.SDP_HEADER_LENGTH + 16 + buffer_size
         receive_length = int(2**math.ceil(math.log(max_length, 2)))
 
         class TransmittedPacket(object):
